@@ -414,6 +414,29 @@ def signature_respellings(raw: bytes, alg: str):
     return out
 
 
+def header_respellings(seg: bytes):
+    """Other Encoded Protected Headers that parse to the SAME JSON object as `seg` (whitespace, a duplicated member,
+    an escaped character): the signature was not computed over them, so they must NOT verify."""
+    try:
+        raw = b64u_dec(seg)
+        obj = json.loads(raw)
+    except Exception:  # noqa: BLE001
+        return []
+    if not isinstance(obj, dict) or not raw.startswith(b"{") or not obj:
+        return []
+    out = [("respell-header-space", b"{ " + raw[1:]), ("respell-header-newline", raw[:-1] + b"\r\n}")]
+    k0 = next(iter(obj))
+    dup = json.dumps({k0: "none"}, separators=(",", ":")).encode()[:-1] + b"," + raw[1:]
+    if json.loads(dup) == obj:
+        out.append(("respell-header-duplicate-member", dup))
+    if b'"alg":"' in raw:
+        i = raw.index(b'"alg":"') + len(b'"alg":"')
+        esc = raw[:i] + ("\\u%04x" % raw[i]).encode() + raw[i + 1:]
+        if json.loads(esc) == obj:
+            out.append(("respell-header-escape", esc))
+    return [(n, b64u(r)) for n, r in out if r != raw]
+
+
 def tamper(case: VCase, rng, others):
     """Derived cases that MUST NOT verify (C01 fault model)."""
     out = []
@@ -425,6 +448,8 @@ def tamper(case: VCase, rng, others):
         def mk(h2, p2, s2, note, det=case.detached):
             out.append(VCase(k, h2 + b"." + p2 + b"." + s2, case.key, case.reg, det, note, case.meta))
         mk(flip_seg(h, rng), p, s, "flip-header")
+        for note, h2 in header_respellings(h):
+            mk(h2, p, s, note)
         if unenc:
             if case.detached:
                 d = bytearray(case.detached)
@@ -477,6 +502,8 @@ def tamper(case: VCase, rng, others):
                     tgt[kk] = vv
             return v2
         mkj(with_first(protected=flip_seg(first["protected"].encode(), rng).decode()), "flip-protected")
+        for note, h2 in header_respellings(first["protected"].encode()):
+            mkj(with_first(protected=h2.decode()), note)
         mkj(with_first(signature=flip_seg(first["signature"].encode(), rng).decode()), "flip-signature")
         raw = b64u_dec(first["signature"].encode())
         mkj(with_first(signature=b64u(raw[:-1]).decode()), "truncate-signature")
